@@ -4,7 +4,7 @@ from .spec import ESpec, VSpec, hx, unhx
 from .strcorpus import STYLES, STEMS, FIELD_NAMES, add_generic_field
 
 KINDS = [('unit', []), ('tuple', ['u8']), ('tuple', ['String', 'i32']), ('tuple', ['bool', 'u8', 'OptU8']),
-         ('named', ['i32']), ('named', ['u8', 'String']), ('named', ['String', 'bool', 'u8'])]
+         ('named', ['i32']), ('named', ['u8', 'String']), ('named', ['String', 'bool', 'u8']), ('tuple', []), ('named', [])]
 
 # naming attribute layouts: (serialize literals as length classes in written order, has to_string)
 # S/M/L = short / medium / long literal; E = a literal with as many bytes as M but fewer chars (multi-byte)
@@ -15,7 +15,7 @@ NAMINGS = [((), False), ((), True), (('M',), False), (('S', 'L'), False), (('L',
 # out-of-quantifier probes (ties in length): last one wins in the implementation and in the model
 TIE_NAMINGS = [(('M', 'N'), False), (('N', 'M'), False), (('M', 'N', 'S'), False)]
 
-PREFIXES = [None, '', 'pre_', 'é-']
+PREFIXES = [None, '', 'pre_', 'é-', 'm-', 's', 'long name of ']   # the last three are prefixes OF some canonical names (classes M, S, L)
 
 
 def lit(cls, ident, k):
